@@ -1,8 +1,100 @@
-/- driver ops for the Tree model (filled in when the module is ported) -/
+/-
+Driver ops for the Tree model (C10).  No program text; all arguments are `u64` decimal
+(anything else: `PANIC`, as the harness's `parse().unwrap()`); `halt` is `0` or non-zero.
+
+  treelist <states> <colors> <halt> <steps>      programs (`show(Some((states, colors)))`) sorted
+                                                 bytewise, joined by `;` (empty line for none)
+  treecount <states> <colors> <halt> <steps>     `<n> <number of distinct programs>`
+  treeseq <states> <colors> <halt> <steps>       programs in sequential emission order, `;`-joined
+  treethreads <threads> <states> <colors> <halt> <steps>   as treelist (the thread count is a
+                                                 harness-side knob)
+  treehash <states> <colors> <halt> <steps>      `<n> <sum> <xor>`: wrapping sum and xor of the
+                                                 FNV-1a-64 hashes of the program texts (16 hex
+                                                 digits each): schedule-independent digest for
+                                                 trees too large to print
+  treetasks <states> <colors> <halt> <steps>     driver only: sizes of the per-task sub-lists
+
+errors: `limit:overflow` (checked arithmetic), `PANIC`
+-/
 import BB.Model.Instrs
+import BB.Model.Tree
 
 namespace BB.Driver.OpsTree
 
-def handle (_op : String) (_args : List String) (_text : String) : Option String := none
+open BB.Tree
+
+def showErr : PErr → String
+  | .panic _ => "PANIC"
+  | .overflow _ => "limit:overflow"
+
+def numArg (s : String) : Option Nat :=
+  match s.toNat? with
+  | some n => if n < u64Size then some n else none
+  | none => none
+
+def sortStrings (l : List String) : List String :=
+  (l.toArray.qsort (fun a b => a < b)).toList
+
+def countDistinctSorted : List String → Nat
+  | [] => 0
+  | [_] => 1
+  | a :: b :: rest => (if a == b then 0 else 1) + countDistinctSorted (b :: rest)
+
+def fnv (s : String) : UInt64 :=
+  s.toUTF8.foldl (fun (h : UInt64) b => (h ^^^ b.toUInt64) * 0x100000001b3) 0xcbf29ce484222325
+
+def hex16 (h : UInt64) : String :=
+  let hex := String.ofList (Nat.toDigits 16 h.toNat)
+  String.ofList (List.replicate (16 - hex.length) '0') ++ hex
+
+def withTree (states colors halt steps : String)
+    (f : Nat × Nat → List (List Prog) → String) : String :=
+  match numArg states, numArg colors, numArg halt, numArg steps with
+  | some s, some c, some h, some l =>
+    match buildTreeLists s c (h != 0) l with
+    | .error e => showErr e
+    | .ok ls => f (s, c) ls
+  | _, _, _, _ => "PANIC"
+
+def shown (params : Nat × Nat) (ls : List (List Prog)) : List String :=
+  ls.flatten.map fun p => p.show (some params)
+
+def handle (op : String) (args : List String) (_text : String) : Option String :=
+  match op, args with
+  | "treelist", [s, c, h, l] =>
+    some (withTree s c h l fun ps ls => ";".intercalate (sortStrings (shown ps ls)))
+  | "treethreads", [t, s, c, h, l] =>
+    match numArg t with
+    | none => some "PANIC"
+    | some _ => some (withTree s c h l fun ps ls => ";".intercalate (sortStrings (shown ps ls)))
+  | "treeseq", [s, c, h, l] =>
+    some (withTree s c h l fun ps ls => ";".intercalate (shown ps ls))
+  | "treecount", [s, c, h, l] =>
+    some (withTree s c h l fun ps ls =>
+      let sorted := sortStrings (shown ps ls)
+      s!"{sorted.length} {countDistinctSorted sorted}")
+  | "treehash", [s, c, h, l] =>
+    -- folds over `buildTask` one top-level instruction at a time (exactly the list `buildTree`
+    -- maps over), so that a task's sub-list is released before the next one is built
+    match numArg s, numArg c, numArg h, numArg l with
+    | some s, some c, some h, some l =>
+      let r := (makeInstrs (min 3 s) (min 3 c)).foldl
+        (fun (acc : Except PErr (Nat × UInt64 × UInt64)) instr =>
+          match acc with
+          | .error e => .error e
+          | .ok acc =>
+            match buildTask s c (h != 0) l instr with
+            | .error e => .error e
+            | .ok sub => .ok (sub.foldl (fun (acc : Nat × UInt64 × UInt64) p =>
+                let x := fnv (p.show (some (s, c)))
+                (acc.1 + 1, acc.2.1 + x, acc.2.2 ^^^ x)) acc))
+        (.ok (0, (0 : UInt64), (0 : UInt64)))
+      match r with
+      | .error e => some (showErr e)
+      | .ok (n, sum, xor) => some s!"{n} {hex16 sum} {hex16 xor}"
+    | _, _, _, _ => some "PANIC"
+  | "treetasks", [s, c, h, l] =>
+    some (withTree s c h l fun _ ls => ",".intercalate (ls.map fun sub => toString sub.length))
+  | _, _ => none
 
 end BB.Driver.OpsTree
